@@ -33,6 +33,59 @@ def known_functions():
         return set(json.load(fh))
 
 
+class OrdLine(int):
+    """Line number of an inlined statement.  As an int it is the line of the call that
+    was replaced (so comparisons between statements of the caller keep meaning "earlier
+    in the caller's flow"); `sub` orders the inlined statements among themselves and
+    `true` is the line in the helper's own text, used when a location is printed."""
+
+    def __new__(cls, v, sub=(), true=None):
+        o = int.__new__(cls, int(v))
+        o.sub = tuple(sub)
+        o.true = int(true if true is not None else v)
+        return o
+
+    @staticmethod
+    def _k(x):
+        return (int(x), x.sub) if isinstance(x, OrdLine) else (int(x), ())
+
+    def __lt__(self, o):
+        return self._k(self) < self._k(o)
+
+    def __le__(self, o):
+        return self._k(self) <= self._k(o)
+
+    def __gt__(self, o):
+        return self._k(self) > self._k(o)
+
+    def __ge__(self, o):
+        return self._k(self) >= self._k(o)
+
+    def __eq__(self, o):
+        return isinstance(o, int) and self._k(self) == self._k(o)
+
+    def __ne__(self, o):
+        return not self.__eq__(o)
+
+    def __hash__(self):
+        return hash(self._k(self))
+
+    def __deepcopy__(self, memo):
+        return self
+
+    def __copy__(self):
+        return self
+
+    def __reduce__(self):
+        return (OrdLine, (int(self), self.sub, self.true))
+
+
+def true_line(n):
+    """line to print for a node (the helper's own line for inlined statements)"""
+    ln = getattr(n, "lineno", 0)
+    return ln.true if isinstance(ln, OrdLine) else ln
+
+
 # --------------------------------------------------------------------- tables
 class _Def:
     __slots__ = ("qual", "node", "rel", "cls", "holder", "outer_funcs")
@@ -243,6 +296,7 @@ class _Inliner:
         self.mods = mods
         self.known = known
         self.counter = 0
+        self.ord = 0
         self.report = []
         self.dropped = []
 
@@ -344,6 +398,10 @@ class _Inliner:
             for p, a in binds:
                 ex[p] = a
             e = _Rename({}, ex).visit(body[0].value)
+            for x in ast.walk(e):
+                if hasattr(x, "lineno") or isinstance(x, ast.expr):
+                    x.lineno = call.lineno
+                    x.end_lineno = call.lineno
             return [], e
         ren = _Rename(mapping, exprs)
         pre = []
@@ -357,10 +415,16 @@ class _Inliner:
             # falling off the end returns None
             pre.append(ast.Assign(targets=[ast.Name(id=ret, ctx=ast.Store())], value=ast.Constant(value=None), lineno=call.lineno))
         pre.extend(new_body)
+        base = call.lineno
+        bsub = base.sub if isinstance(base, OrdLine) else ()
         for s in pre:
-            if not hasattr(s, "lineno"):
-                ast.copy_location(s, call)
-            ast.fix_missing_locations(s)
+            for x in _dfs(s):
+                self.ord += 1
+                t = getattr(x, "lineno", None)
+                if isinstance(x, (ast.stmt, ast.expr, ast.excepthandler, ast.arg)) or t is not None:
+                    x.lineno = OrdLine(int(base), bsub + (self.ord,), true_line(x) if t is not None else (base.true if isinstance(base, OrdLine) else base))
+                    if getattr(x, "end_lineno", None) is not None:
+                        x.end_lineno = x.lineno
         return pre, (ast.Name(id=ret, ctx=ast.Load()) if has_value else ast.Constant(value=None))
 
     # ......................................................... one function
@@ -525,6 +589,12 @@ class _Inliner:
                     self.dropped.append(d.qual)
 
 
+def _dfs(n):
+    yield n
+    for c in ast.iter_child_nodes(n):
+        yield from _dfs(c)
+
+
 def _simple(e):
     return isinstance(e, (ast.Name, ast.Constant)) or isinstance(e, ast.Attribute) and _simple(e.value)
 
@@ -564,9 +634,158 @@ def _walk_expr(e):
         stack.extend(ast.iter_child_nodes(x))
 
 
+# ------------------------------------------------------- new module constants
+def known_constants():
+    with open(os.path.join(HERE, "known_consts.json")) as fh:
+        return set(json.load(fh))
+
+
+def _const_value(v):
+    """literal value of a module-level constant worth propagating, else None"""
+    if isinstance(v, ast.Constant) and isinstance(v.value, (str, int, bytes)) and not isinstance(v.value, bool):
+        return v
+    if isinstance(v, (ast.Tuple, ast.List, ast.Set)) and v.elts and all(isinstance(e, ast.Constant) for e in v.elts):
+        return ast.Tuple(elts=list(v.elts), ctx=ast.Load())
+    if isinstance(v, ast.Call) and isinstance(v.func, ast.Name) and v.func.id in ("frozenset", "set", "tuple") and len(v.args) == 1 and not v.keywords:
+        return _const_value(v.args[0]) if isinstance(v.args[0], (ast.Tuple, ast.List, ast.Set)) else None
+    return None
+
+
+def module_constants(tree):
+    out = {}
+    counts = {}
+    for n in ast.walk(tree):
+        if isinstance(n, ast.Name) and isinstance(n.ctx, (ast.Store, ast.Del)):
+            counts[n.id] = counts.get(n.id, 0) + 1
+        elif isinstance(n, (ast.Global, ast.Nonlocal)):
+            for nm in n.names:
+                counts[nm] = counts.get(nm, 0) + 2
+        elif isinstance(n, ast.arg):
+            counts[n.arg] = counts.get(n.arg, 0) + 2
+    for st in tree.body:
+        tgt = val = None
+        if isinstance(st, ast.Assign) and len(st.targets) == 1 and isinstance(st.targets[0], ast.Name):
+            tgt, val = st.targets[0].id, st.value
+        elif isinstance(st, ast.AnnAssign) and isinstance(st.target, ast.Name) and st.value is not None:
+            tgt, val = st.target.id, st.value
+        if tgt and counts.get(tgt, 0) == 1:
+            cv = _const_value(val)
+            if cv is not None:
+                out[tgt] = (cv, st)
+    return out
+
+
+def fold_new_constants(mods, known):
+    """Replace loads of module-level constants that did not exist on the pinned tree by
+    their literal value (the dual of inlining an extracted helper: an extracted constant)."""
+    folded = []
+    for rel, tree in mods.items():
+        consts = {k: v for k, v in module_constants(tree).items() if f"{rel}:{k}" not in known}
+        if not consts:
+            continue
+
+        class Fold(ast.NodeTransformer):
+            def visit_Name(self, n):
+                if isinstance(n.ctx, ast.Load) and n.id in consts:
+                    folded.append((f"{rel}:{n.id}", getattr(n, "lineno", 0)))
+                    return ast.copy_location(copy.deepcopy(consts[n.id][0]), n)
+                return n
+
+            def visit_JoinedStr(self, n):
+                self.generic_visit(n)
+                vals = []
+                for v in n.values:
+                    if isinstance(v, ast.FormattedValue) and isinstance(v.value, ast.Constant) and isinstance(v.value.value, str) and v.conversion == -1 and v.format_spec is None:
+                        v = ast.copy_location(ast.Constant(value=v.value.value), v)
+                    if vals and isinstance(v, ast.Constant) and isinstance(vals[-1], ast.Constant) and isinstance(v.value, str) and isinstance(vals[-1].value, str):
+                        vals[-1] = ast.copy_location(ast.Constant(value=vals[-1].value + v.value), vals[-1])
+                    else:
+                        vals.append(v)
+                n.values = vals
+                return n
+
+        for st in list(tree.body):
+            if any(st is c[1] for c in consts.values()):
+                continue
+            Fold().visit(st)
+    return folded
+
+
+# ------------------------------------------- reflective loops over option names
+def unroll_reflective_loops(mods):
+    """`for name in ("a", "b"): setattr(obj, name, d.get(name, getattr(obj, name)))`
+    is unrolled and the constant-name getattr/setattr become attribute accesses, so
+    the table rules see `obj.a = d.get("a", obj.a)` again."""
+    done = []
+
+    class Subst(ast.NodeTransformer):
+        def __init__(self, var, const):
+            self.var, self.const = var, const
+
+        def visit_Name(self, n):
+            if n.id == self.var and isinstance(n.ctx, ast.Load):
+                return ast.copy_location(ast.Constant(value=self.const), n)
+            return n
+
+    class Reflect(ast.NodeTransformer):
+        def visit_Call(self, n):
+            self.generic_visit(n)
+            if isinstance(n.func, ast.Name) and n.func.id == "getattr" and len(n.args) == 2 and not n.keywords and isinstance(n.args[1], ast.Constant) and isinstance(n.args[1].value, str) and n.args[1].value.isidentifier():
+                return ast.copy_location(ast.Attribute(value=n.args[0], attr=n.args[1].value, ctx=ast.Load()), n)
+            return n
+
+        def visit_Expr(self, st):
+            self.generic_visit(st)
+            n = st.value
+            if isinstance(n, ast.Call) and isinstance(n.func, ast.Name) and n.func.id == "setattr" and len(n.args) == 3 and not n.keywords and isinstance(n.args[1], ast.Constant) and isinstance(n.args[1].value, str) and n.args[1].value.isidentifier():
+                return ast.copy_location(ast.Assign(targets=[ast.Attribute(value=n.args[0], attr=n.args[1].value, ctx=ast.Store())], value=n.args[2], lineno=st.lineno), st)
+            return st
+
+    def reflective(body, var):
+        for b in body:
+            for n in ast.walk(b):
+                if isinstance(n, ast.Call) and isinstance(n.func, ast.Name) and n.func.id in ("getattr", "setattr") and len(n.args) >= 2 and isinstance(n.args[1], ast.Name) and n.args[1].id == var:
+                    return True
+        return False
+
+    def do_block(stmts, rel):
+        out = []
+        for st in stmts:
+            for field in ("body", "orelse", "finalbody"):
+                b = getattr(st, field, None)
+                if isinstance(b, list) and b and isinstance(b[0], ast.stmt):
+                    setattr(st, field, do_block(b, rel))
+            if isinstance(st, ast.Try):
+                for h in st.handlers:
+                    h.body = do_block(h.body, rel)
+            if (isinstance(st, ast.For) and isinstance(st.target, ast.Name) and not st.orelse and isinstance(st.iter, (ast.Tuple, ast.List)) and 0 < len(st.iter.elts) <= 24
+                    and all(isinstance(e, ast.Constant) and isinstance(e.value, str) for e in st.iter.elts) and reflective(st.body, st.target.id)
+                    and not any(isinstance(n, (ast.Break, ast.Continue)) for b in st.body for n in ast.walk(b))
+                    and not any(isinstance(n, ast.Name) and n.id == st.target.id and isinstance(n.ctx, ast.Store) for b in st.body for n in ast.walk(b))):
+                for e in st.iter.elts:
+                    for b in st.body:
+                        nb = Subst(st.target.id, e.value).visit(copy.deepcopy(b))
+                        nb = Reflect().visit(nb)
+                        out.append(ast.fix_missing_locations(nb))
+                done.append((rel, getattr(st, "lineno", 0), len(st.iter.elts)))
+                continue
+            out.append(st)
+        return out
+
+    for rel, tree in mods.items():
+        for n in ast.walk(tree):
+            if isinstance(n, (ast.FunctionDef, ast.AsyncFunctionDef)):
+                n.body = do_block(n.body, rel)
+    return done
+
+
 def normalise(mods, known=None):
     """In-place normalisation of the module trees.  Returns (inlined call sites,
     removed helpers)."""
     if known is None:
         known = known_functions()
-    return _Inliner(mods, known).run()
+    folded = fold_new_constants(mods, known_constants())
+    for rel, ln, n in unroll_reflective_loops(mods):
+        folded.append((f"loop over {n} option names in {rel}", ln))
+    rep, dropped = _Inliner(mods, known).run()
+    return rep + [("const " + q, "", ln) for q, ln in folded], dropped
